@@ -235,6 +235,12 @@ func build(c *Case) (*fox.Router, error) {
 			_ = f.Updates(func(txn *fox.Txn) error { return txn.Truncate() })
 		}()
 	}
+	if c.Empty == "partly" {
+		// one method with routes removed by a committed Truncate(method), other methods keep theirs
+		defer func() {
+			_ = f.Updates(func(txn *fox.Txn) error { return txn.Truncate("POST", "BREW") })
+		}()
+	}
 	pre := ""
 	if c.Hostnames {
 		pre = "{sub}.example.com"
@@ -529,7 +535,7 @@ func genCase(t *rapid.T) *Case {
 		TS: gen.Pick(t, []int{rt.TSNone, rt.TSIgnore, rt.TSRedirect}, "ts"), NoMethod: gen.Chance(t, 1, 2, "nm"), AutoOptions: gen.Chance(t, 1, 2, "ao"),
 		Resolver: gen.Chance(t, 1, 2, "res"), Middleware: gen.IntR(t, 0, 3, "mw"), Hostnames: gen.Chance(t, 1, 3, "hosts"),
 		Deep:  gen.Pick(t, []int{0, 0, 8, 24, 25, 26, 40, 120}, "deep"),
-		Empty: gen.Pick(t, []string{"", "", "", "", "fresh", "truncated"}, "empty"),
+		Empty: gen.Pick(t, []string{"", "", "", "fresh", "truncated", "partly"}, "empty"),
 	}
 }
 
@@ -546,7 +552,7 @@ func TestMatrix(t *testing.T) {
 	for _, st := range stages {
 		for _, c := range []*Case{{Stage: st, Writes: 3}, {Stage: st, Writes: 5, TS: rt.TSRedirect, NoMethod: true, AutoOptions: true, Resolver: true, Middleware: 2, Hostnames: true},
 			{Stage: st, Writes: 3, Deep: 40}, {Stage: st, Writes: 2, TS: rt.TSIgnore, Hostnames: true, Deep: 64},
-			{Stage: st, Writes: 3, Empty: "fresh", NoMethod: true, AutoOptions: true}, {Stage: st, Writes: 2, Empty: "truncated", Deep: 8}} {
+			{Stage: st, Writes: 3, Empty: "fresh", NoMethod: true, AutoOptions: true}, {Stage: st, Writes: 2, Empty: "truncated", Deep: 8}, {Stage: st, Writes: 2, Empty: "partly", Hostnames: true}} {
 			stats.Sample(c)
 			if err := checkCase(c, true); err != nil {
 				fail(t, c, err)
